@@ -90,9 +90,24 @@ class Rule:
         return cls.from_spec(json_like)
 
     def to_json_like(self, *args, **kwargs):
+        cast = None
+        if self.cast:
+            # write the cast as type names, as `from_spec` reads it:
+            dtype_names = {v: k for k, v in CAST_DTYPE_LOOKUP.items()}
+            cast = {}
+            for cast_from, cast_func in self.cast.items():
+                for (from_i, to_i), func_i in CAST_LOOKUP.items():
+                    if from_i is cast_from and func_i is cast_func:
+                        cast[dtype_names[from_i]] = dtype_names[to_i]
+                        break
+                else:
+                    raise ValueError(
+                        f"Cast from {cast_from!r} using {cast_func!r} cannot be written "
+                        f"in JSON form."
+                    )
         out = {
             "condition": self.condition.to_json_like(),
-            "cast": self.cast,
+            "cast": cast,
             "path": self.path.to_json_like(),
         }
         if "shared_data" in kwargs:
